@@ -89,8 +89,10 @@ func LogClose(closer io.Closer) error {
 func PipeData(down io.ReadWriteCloser, up io.ReadWriteCloser) error {
 	log.Debugf("Piping data %v <-> %v", down, up)
 
-	downPipe := make(chan error, 0)
-	upPipe := make(chan error, 0)
+	// Each copy loop reports exactly once and only the first report is consumed: the channels need room for
+	// that one value, or the second loop stays blocked on its send for ever.
+	downPipe := make(chan error, 1)
+	upPipe := make(chan error, 1)
 
 	if os.Getenv("SOCKETACE_PIPE_DEBUG") == "1" {
 		go pipeDebugData(downPipe, down, up)
